@@ -64,6 +64,10 @@ fn run_line(line: &str) -> String {
     }
     if toks[0] == "PAIR" {
         // several commands on one line, executed one after the other by this thread (state that survives between calls is shared)
+        let segs: Vec<&[&str]> = toks[1..].split(|t| *t == "||").collect();
+        if !segs.is_empty() && segs.iter().all(|s| s.first() == Some(&"SRB")) {
+            return chan_adm::srb_many(&segs);
+        }
         let outs: Vec<String> = toks[1..].split(|t| *t == "||").map(run_tokens).collect();
         return outs.join(" || ");
     }
